@@ -18,12 +18,7 @@ func (t *Table) model(fl jsFlags) *jsModel {
 	return m
 }
 
-func lineMatches(kind, pred, got string) bool {
-	if kind == "as" {
-		return strings.HasPrefix(got, pred+" ")
-	}
-	return pred == got
-}
+func lineMatches(kind, pred, got string) bool { return pred == got }
 
 // classify returns the known-finding keys of a mismatching cell: non-empty only
 // if the defect model of jsmodel.go reproduces the observation exactly.
@@ -34,16 +29,6 @@ func classify(m *mismatch) []string {
 	t := m.t
 	names := t.sp.Names
 	kind := m.c.kind
-	if kind == "as" {
-		w, g := strings.Fields(m.c.want), strings.Fields(m.got)
-		if len(w) == 2 && len(g) == 2 && w[0] == g[0] {
-			// same outcome, only the method named in the panic message differs
-			if w[0] == "false" && g[1] != "ok" && g[1] != "notRuntimeError" && g[1] != "nomissing" {
-				return []string{"missing_method_name_in_panic_message"}
-			}
-			return nil
-		}
-	}
 	full := t.model(allDefects)
 	pred, ok := full.predict(m.c, names)
 	if !ok || !lineMatches(kind, pred, m.got) {
